@@ -465,6 +465,11 @@ class Evaluator(object):
             if self.truth(self.expr(e.test, env, fi)):
                 return self.expr(e.body, env, fi)
             return self.expr(e.orelse, env, fi)
+        if isinstance(e, ast.JoinedStr):
+            for v in e.values:
+                if isinstance(v, ast.FormattedValue):
+                    self.expr(v.value, env, fi)
+            return Sym("formatted-string", truthy=True, pytype=str)
         if isinstance(e, (ast.ListComp, ast.GeneratorExp, ast.DictComp)) and len(e.generators) == 1:
             gen = e.generators[0]
             try:
@@ -615,6 +620,11 @@ class Evaluator(object):
                 except (TypeError, ValueError) as ex:
                     raise _Raise(type(ex).__name__)
             if isinstance(args[0], (D, L, Obj, Opaque)):
+                raise _Raise("TypeError")
+        if fname in ("min", "max") and len(args) >= 2 and all(isinstance(a, K) for a in args):
+            try:
+                return K(min(a.v for a in args) if fname == "min" else max(a.v for a in args))
+            except TypeError:
                 raise _Raise("TypeError")
         if fname == "range" and len(args) in (1, 2) and all(isinstance(a, K) and isinstance(a.v, int) for a in args):
             return K(tuple(range(*[a.v for a in args])))
